@@ -327,6 +327,9 @@ func (c *Conn) Peer() *Conn                        { return c.peer }
 func (c *Conn) ID() int                            { return c.id }
 func (c *Conn) Buffered() int                      { return len(c.rd.buf) }
 
+// ReadDeadlineNS is the read deadline in force (virtual ns, 0 = none): harnesses time events against it.
+func (c *Conn) ReadDeadlineNS() int64 { return c.rdl }
+
 type Listener struct {
 	n      *Net
 	addr   *net.TCPAddr
